@@ -1,15 +1,4 @@
-mod adapter;
-mod arch;
-mod choice;
-mod cli;
-mod gen;
-mod link;
-mod machine;
-mod model;
-mod monitor;
-mod props;
-mod reflex;
-mod runner;
+use rvverif::{adapter, props, runner};
 
 use std::path::PathBuf;
 
